@@ -20,6 +20,7 @@ Inductive res :=
 | ErrInt            (* returned fmt.Errorf("... is not an integer") *)
 | ErrNaN            (* returned fmt.Errorf("NaN value detected ...") (beta) *)
 | Panic             (* index out of range (categorical) *)
+| ErrDim            (* returned fmt.Errorf("... dimension ...") (vector families, VModel.v) *)
 | CtorErr           (* constructor returned an error (dispatcher only) *)
 | NoSuch.           (* method not offered / argument outside the model (dispatcher, wrappers) *)
 
@@ -79,8 +80,8 @@ Definition exp_set (p : list R) := exp_new (nth 0 p 0).
 
 (* ----------------------------------------------------------------- laplace *)
 Record lap_d := { l_mu : R; l_sigma : R; l_c1 : ER; l_c2 : ER; l_z : ER }.
-(* the constructor validates nothing *)
 Definition lap_new (mu sigma : R) : option lap_d :=
+  if Rleb sigma 0 then None else
   let c2 := F 2 in
   let z := emul c2 (F sigma) in
   let z := elog z in
@@ -91,17 +92,18 @@ Definition lap_logpdf (d : lap_d) (x : R) : res :=
   let r := ediv r (F (l_sigma d)) in
   let r := eneg r in
   Val (esub r (l_z d)).
-(* "LogCdf" as the code has it (it computes the cdf itself, not its logarithm) *)
+(* x > mu: log1p(-exp(-|x-mu|/sigma)/2); else -|x-mu|/sigma - Ln2 *)
 Definition lap_logcdf (d : lap_d) (x : R) : res :=
   let r := esub (F x) (F (l_mu d)) in
   let r := eabs r in
   let r := ediv r (F (l_sigma d)) in
   let r := eneg r in
-  let r := eexp r in
-  let r := ediv r (l_c2 d) in
   if Rltb (l_mu d) x then
-    let r := eneg r in Val (eadd r (l_c1 d))
-  else Val r.
+    let r := eexp r in
+    let r := ediv r (l_c2 d) in
+    let r := eneg r in
+    Val (elog1p r)
+  else Val (esub r (F (ln 2))).
 Definition lap_cdf d x := rmap eexp (lap_logcdf d x).
 Definition lap_get (d : lap_d) : list R := [l_mu d; l_sigma d].
 Definition lap_set (p : list R) := lap_new (nth 0 p 0) (nth 1 p 0).
@@ -156,7 +158,8 @@ Definition gp_logpdf (d : gp_d) (x : R) : res :=
              emul r (g_cx2 d) in
   Val (esub r (g_cs d)).
 Definition gp_logcdf (d : gp_d) (x : R) : res :=
-  if gp_guard d x then Val NInf else
+  if Rltb x (g_mu d) then Val NInf else
+  if negb (Rleb 0 (g_xi d)) && Rltb (g_mu d - g_sigma d / g_xi d) x then Val (F 0) else
   let r := esub (F x) (F (g_mu d)) in
   let r := ediv r (F (g_sigma d)) in
   let r := if Reqb (g_xi d) 0 then eexp (eneg r)
@@ -197,7 +200,7 @@ Definition gev_logpdf (d : gev_d) (x : R) : res :=
   let t := elog (F (v_sigma d)) in
   Val (esub r t).
 Definition gev_logcdf (d : gev_d) (x : R) : res :=
-  if gev_guard d x then Val NInf else
+  if gev_guard d x then (if Rltb (v_xi d) 0 then Val (F 0) else Val NInf) else
   let r := F x in
   let r := esub r (F (v_mu d)) in
   let r := ediv r (F (v_sigma d)) in
@@ -229,9 +232,10 @@ Definition gam_logpdf (d : gam_d) (x : R) : res :=
   let r := esub r t in
   Val (eadd r (a_z d)).
 Definition gam_cdf (d : gam_d) (x : R) : res :=
+  if Rleb x 0 then Val (F 0) else
   let r := emul (F x) (F (a_beta d)) in
   Val (egamP gamP (a_alpha d) r).
-Definition gam_logcdf d x := rmap elog (gam_cdf d x).
+Definition gam_logcdf d x := if Rleb x 0 then Val NInf else rmap elog (gam_cdf d x).
 Definition gam_get (d : gam_d) : list R := [a_alpha d; a_beta d].
 Definition gam_set (p : list R) := gam_new (nth 0 p 0) (nth 1 p 0).
 
@@ -259,13 +263,14 @@ Definition beta_logpdf (d : beta_d) (x : R) : res :=
   if (if b_log d then Rltb 0 x else Rltb x 0 || Rltb 1 x) then Val NInf else
   let '(t1, t2) :=
     if b_log d then
-      let t2 := if Reqb (b_bs1 d) 0 then F 0 else emul (logsub (b_c1 d) (F x)) (F (b_bs1 d)) in
-      let t1 := if Reqb (b_as1 d) 0 then F 0 else emul (F (b_as1 d)) (F x) in
+      let t2 := if Reqb (b_bs1 d) 0 && Reqb x 0 then F 0 else emul (logsub (b_c1 d) (F x)) (F (b_bs1 d)) in
+      (* the shortcut for as1 = 0 is taken only at x = -Inf: never for a finite point *)
+      let t1 := emul (F (b_as1 d)) (F x) in
       (t1, t2)
     else
-      let t2 := if Reqb (b_bs1 d) 0 then F 0
+      let t2 := if Reqb (b_bs1 d) 0 && Reqb x 1 then F 0
                 else emul (elog (esub (b_c1 d) (F x))) (F (b_bs1 d)) in
-      let t1 := if Reqb (b_as1 d) 0 then F 0 else emul (elog (F x)) (F (b_as1 d)) in
+      let t1 := if Reqb (b_as1 d) 0 && Reqb x 0 then F 0 else emul (elog (F x)) (F (b_as1 d)) in
       (t1, t2) in
   let r := eadd t1 t2 in
   let r := eadd r (b_z d) in
@@ -282,29 +287,30 @@ Definition bin_new (theta : R) (n : Z) : option bin_d :=
   Some {| i_theta := elog (F theta); i_n := IZR n; i_np1 := IZR (n + 1);
           i_z := LG (F (IZR (n + 1))); i_c1 := F 1; i_ct := ct |}.
 Definition bin_logpdf (d : bin_d) (x : R) : res :=
-  if Rltb x 0 || negb (is_intb x) then Val NInf else
+  if Rltb x 0 || Rltb (i_n d) x || negb (is_intb x) then Val NInf else
   let t1 := eadd (F x) (i_c1 d) in
   let t1 := LG t1 in
   let t2 := esub (F (i_np1 d)) (F x) in
   let t2 := LG t2 in
   let r := esub (i_z d) t1 in
   let r := esub r t2 in
-  let t1 := emul (i_theta d) (F x) in
+  let t1 := if Reqb x 0 then F 0 else emul (i_theta d) (F x) in
   let t2 := esub (F (i_n d)) (F x) in
-  let t2 := emul (i_ct d) t2 in
+  let t2 := if eis_zero t2 then F 0 else emul (i_ct d) t2 in
   let r := eadd r t1 in
   Val (eadd r t2).
 
 (* ------------------------------------------------------------- categorical *)
-(* the stored vector is log theta; no normalisation, no integrality check *)
+(* the stored vector is log theta; no normalisation *)
 Definition cat_new (theta : list R) : option (list ER) :=
   match theta with [] => None | _ =>
     if existsb (fun t => Rltb t 0) theta then None
     else Some (map (fun t => elog (F t)) theta) end.
 Definition cat_logpdf (d : list ER) (x : R) : res :=
-  let i := Ztrunc x in    (* int(x.GetFloat64()) truncates toward zero *)
-  if (i <? 0)%Z || (Z.of_nat (length d) <=? i)%Z then Panic
-  else Val (nth (Z.to_nat i) d NaN).
+  if negb (is_intb x) then ErrInt else
+  if Rltb x 0 || Rleb (IZR (Z.of_nat (length d))) x then Val NInf else
+  let i := Ztrunc x in    (* int(x.GetFloat64()) *)
+  Val (nth (Z.to_nat i) d NaN).
 (* Scalar.LogAdd(a, b, t) *)
 Definition logadd (a b : ER) : ER :=
   let '(a, b) := if eltb b a then (b, a) else (a, b) in
@@ -312,11 +318,11 @@ Definition logadd (a b : ER) : ER :=
   | PInf | NInf => b
   | _ => let t := esub a b in let t := eexp t in let t := elog1p t in eadd t b
   end.
-(* r.Reset() sets r to 0 (= log 1), then LogAdd's theta[0..int(x)] *)
+(* r = -Inf; for i := 0; i < n && float64(i) <= x; i++ { r = LogAdd(r, theta[i]) }
+   (the loop condition is monotone in i: the loop runs over the prefix of indices with i <= x) *)
 Definition cat_logcdf (d : list ER) (x : R) : res :=
-  let i := Ztrunc x in
-  if (Z.of_nat (length d) <=? i)%Z then Panic else
-  Val (fold_left (fun r k => logadd r (nth k d NaN)) (seq 0 (Z.to_nat (i + 1))) (F 0)).
+  Val (fold_left (fun r k => if Rleb (IZR (Z.of_nat k)) x then logadd r (nth k d NaN) else r)
+                 (seq 0 (length d)) NInf).
 Definition cat_cdf d x := rmap eexp (cat_logcdf d x).
 
 (* ------------------------------------------------------------------ cauchy *)
@@ -338,8 +344,8 @@ Definition cau_set (p : list R) := cau_new (nth 0 p 0) (nth 1 p 0).
 
 (* ------------------------------------------------------------- chi-squared *)
 Record chi_d := { h_k : R; h_c : ER; h_l : R; h_e : ER; h_z : ER }.
-(* the constructor validates nothing; LogPdf has no support guard *)
 Definition chi_new (k : R) : option chi_d :=
+  if Rleb k 0 then None else
   let c2 := F 2 in
   let l := k / 2 in
   let e := esub (F l) (F 1) in
@@ -349,15 +355,16 @@ Definition chi_new (k : R) : option chi_d :=
   let z := eadd z t1 in
   Some {| h_k := k; h_c := c2; h_l := l; h_e := e; h_z := z |}.
 Definition chi_logpdf (d : chi_d) (x : R) : res :=
-  let r := elog (F x) in
-  let r := emul r (h_e d) in
+  if Rltb x 0 then Val NInf else
+  let r := if eis_zero (h_e d) then F 0 else emul (elog (F x)) (h_e d) in
   let t := ediv (F x) (h_c d) in
   let r := esub r t in
   Val (esub r (h_z d)).
 Definition chi_cdf (d : chi_d) (x : R) : res :=
+  if Rleb x 0 then Val (F 0) else
   let r := ediv (F x) (h_c d) in
   Val (egamP gamP (h_l d) r).
-Definition chi_logcdf d x := rmap elog (chi_cdf d x).
+Definition chi_logcdf d x := if Rleb x 0 then Val NInf else rmap elog (chi_cdf d x).
 
 (* ------------------------------------------------------------------- delta *)
 Definition delta_logpdf (X x : R) : res := if Reqb x X then Val (F 0) else Val NInf.
@@ -397,7 +404,7 @@ Definition geo_new (p : R) : option geo_d :=
 Definition geo_logpdf (d : geo_d) (x : R) : res :=
   if negb (is_intb x) then ErrInt else
   if Rltb x 0 then Val NInf else
-  let r := emul (F x) (o_p2 d) in
+  let r := if Reqb x 0 then F 0 else emul (F x) (o_p2 d) in
   Val (eadd r (o_p1 d)).
 Definition geo_get (d : geo_d) : list R := [o_p d].
 Definition geo_set (p : list R) := geo_new (nth 0 p 0).
@@ -418,7 +425,7 @@ Definition nb_logpdf (d : nb_d) (x : R) : res :=
   let t1 := LG t1 in
   let t2 := eadd (F x) (m_c1 d) in
   let t2 := LG t2 in
-  let r := emul (F x) (m_lp d) in
+  let r := if Reqb x 0 then F 0 else emul (F x) (m_lp d) in
   let r := eadd r t1 in
   let r := esub r t2 in
   Val (eadd r (m_z d)).
@@ -440,8 +447,8 @@ Definition poi_logpdf (lambda : R) (x : R) : res :=
 (* --------------------------------------------------------------- power law *)
 Record pl_d := { w_alpha : R; w_xmin : R; w_ca : ER; w_cz : ER }.
 Definition pl_new (alpha xmin : R) : option pl_d :=
-  if Rleb alpha 0 then None else
-  if Reqb xmin 0 then None else
+  if Rleb alpha 1 then None else
+  if Rleb xmin 0 then None else
   let ca := esub (F 1) (F alpha) in
   let cz := esub (F alpha) (F 1) in
   let cz := ediv cz (F xmin) in
@@ -454,12 +461,15 @@ Definition pl_logpdf (d : pl_d) (x : R) : res :=
   let r := emul r (F (w_alpha d)) in
   let r := eneg r in
   Val (eadd r (w_cz d)).
-(* "LogCdf" as the code has it *)
+(* log(1 - (x/xmin)^(1-alpha)) *)
 Definition pl_logcdf (d : pl_d) (x : R) : res :=
-  if Rleb x 0 then Val NInf else
+  if Rleb x (w_xmin d) then Val NInf else
   let r := ediv (F x) (F (w_xmin d)) in
   let r := elog r in
-  Val (emul r (w_ca d)).
+  let r := emul r (w_ca d) in
+  let r := eexp r in
+  let r := eneg r in
+  Val (elog1p r).
 Definition pl_cdf d x := rmap eexp (pl_logcdf d x).
 Definition pl_get (d : pl_d) : list R := [w_alpha d; w_xmin d].
 Definition pl_set (p : list R) := pl_new (nth 0 p 0) (nth 1 p 0).
